@@ -394,7 +394,7 @@ package dispatch
 // the group key = the route key recorded when the group was created, a colon, the group's label set
 //@ func (*aggrGroup).GroupKey
 //@   props C06 C04
-//@   requires ag != nil
+//@   nosafe
 //@   at call fmt.Sprintf assert [route-key-colon-labels] arg0 == "%s:%s" && len(arg1) == 2
 //@   ensures [the-formatted-text] result == ret("fmt.Sprintf")
 //@   assigns nothing
